@@ -3,7 +3,7 @@
     (transition_column, decompose_table, gen_fan_child, gen_transition_type) are the ones
     regenerated from the current mulgrids.py. *)
 From Coq Require Import List Arith Bool ZArith QArith Reals.
-From P Require Import Geom Comb Cross Tiling.
+From P Require Import Geom Comb Cross Tiling Centroid.
 From Gen Require Import GenRefine GenArea GenPos GenDecomp GenGood.
 From P Require Import Model Volume Conform Main Decomp73 MainTiling.
 Import ListNotations.
@@ -64,6 +64,30 @@ Theorem refine_column_tiles :
        (strictly_inside cs p -> exists i, i < length e /\ inside_closed (map (vpos cs c istart) (nth i e [])) p)).
 Proof. exact refine_column_tiles_. Qed.
 Print Assumptions refine_column_tiles.
+
+(** with the default centre node -- column.centre = geometry.polygon_centroid, [rcentroid] -- the
+    two hypotheses on the centre follow from convexity: every strictly convex counter-clockwise
+    3- or 4-node column is tiled by the new columns refine() makes, whatever sides are refined *)
+Theorem centroid_meets_hypotheses :
+  forall cs, length cs = 3 \/ length cs = 4 -> convex_ccw cs -> interior cs (rcentroid cs) /\ centre_ok cs (rcentroid cs).
+Proof. exact centroid_ok_. Qed.
+Print Assumptions centroid_meets_hypotheses.
+Theorem refine_column_tiles_default_centre :
+  forall (cs : list pt) (sides : list nat),
+  length cs = 3 \/ length cs = 4 -> is_side_set (length cs) sides = true -> sides <> [] -> convex_ccw cs ->
+  let c := rcentroid cs in
+  exists istart e, refine_children (length cs) sides = Some (istart, e) /\ children_good cs c istart e /\
+    (forall p, zsum (child_wns cs c istart e p) = wn cs p /\
+               (wn cs p = 1%Z -> exactly_one (child_wns cs c istart e p)) /\
+               (wn cs p = 0%Z -> forall j, nth j (child_wns cs c istart e p) 0%Z = 0%Z)) /\
+    (forall p,
+       (forall i j, i < length e -> j < length e ->
+          strictly_inside (map (vpos cs c istart) (nth i e [])) p ->
+          strictly_inside (map (vpos cs c istart) (nth j e [])) p -> i = j) /\
+       (forall i, i < length e -> strictly_inside (map (vpos cs c istart) (nth i e [])) p -> inside_closed cs p) /\
+       (strictly_inside cs p -> exists i, i < length e /\ inside_closed (map (vpos cs c istart) (nth i e [])) p)).
+Proof. exact refine_column_tiles_centroid_. Qed.
+Print Assumptions refine_column_tiles_default_centre.
 
 (** split_column (entry regenerated from its AST): area for all reals; tiling for a strictly
     convex counter-clockwise quadrilateral split at any of its four nodes *)
